@@ -119,7 +119,8 @@ Inductive wret :=
 | WList (chunks : list str)                                   (* [] or [bytes] *)
 | WWrap (id : nat) (has_close : bool) (content : str)         (* wsgi.file_wrapper(f) / WSGIFileWrapper(f) *)
 | WIter (m : imode) (first : str) (rest : list item) (close : option nat).
-                                                              (* chain([first], it) | encoding genexpr | _closeiter *)
+                                   (* chain([first], it) | chain([first], encoding genexpr) | _closeiter of one of them;
+                                      first is a byte string in both modes *)
 
 (* ------------------------------------------------------------------ *)
 (* 3. The per-thread response object                                   *)
@@ -271,18 +272,20 @@ Definition bad_headers_for (code : Z) : option (list str) :=
 (* val.encode('utf8').decode('latin1') *)
 Definition transcode (v : str) : option str := utf8_encode v.
 
+Fixpoint flatten_vals (k : str) (l : list str) : option (list (str * str)) :=
+  match l with
+  | [] => Some []
+  | v :: l' => match transcode v, flatten_vals k l' with
+               | Some v', Some r => Some ((k, v') :: r)
+               | _, _ => None
+               end
+  end.
+
 Fixpoint flatten_headers (h : hdrs) : option (list (str * str)) :=
   match h with
   | [] => Some []
   | (k, vs) :: t =>
-      match (fix go (l : list str) : option (list (str * str)) :=
-               match l with
-               | [] => Some []
-               | v :: l' => match transcode v, go l' with
-                            | Some v', Some r => Some ((k, v') :: r)
-                            | _, _ => None
-                            end
-               end) vs, flatten_headers t with
+      match flatten_vals k vs, flatten_headers t with
       | Some a, Some b => Some (a ++ b)
       | _, _ => None
       end
@@ -433,7 +436,10 @@ Fixpoint peek (items : list item) (close : option nat) (st : rstate) : step_res 
       else match o with
            | OHttp e r => SCont (OHttp e r) st                  (* isinstance(first, HTTPResponse) *)
            | OBytes b => SDone (WIter MBytes b rest close) st false
-           | OStr s => SDone (WIter MStr s rest close) st false
+           | OStr s => match encode st s with                   (* fix F32: first.encode(response.charset) *)
+                       | Some b => SDone (WIter MStr b rest close) st false
+                       | None => SRaise
+                       end
            | _ => SCont (OHttp true (err_unsupported (type_str o))) st
            end
   | IRaiseHttp e r :: _ => SCont (OHttp e r) st                 (* except HTTPResponse as rs: first = rs *)
@@ -643,15 +649,8 @@ Definition consume (w : wret) (st : rstate) : list event :=
       EvBody (match content with [] => [] | _ => [CBytes content] end)
       :: (if hc then [EvClose id] else [])
   | WIter m first rest cl =>
-      let '(chunks, raised) :=
-        match m with
-        | MBytes => let '(c, r) := iter_rest m st rest in (CBytes first :: c, r)
-        | MStr => match encode st first with
-                  | Some b => let '(c, r) := iter_rest m st rest in (CBytes b :: c, r)
-                  | None => ([], true)
-                  end
-        end in
-      EvBody chunks :: (if raised then [EvIterRaise] else [])
+      let '(c, raised) := iter_rest m st rest in
+      EvBody (CBytes first :: c) :: (if raised then [EvIterRaise] else [])
       ++ match cl with Some id => [EvClose id] | None => [] end
   end.
 
